@@ -76,6 +76,10 @@ def cases(tier, seed):
     for L, n, shape in domains.shapes_up_to(Lm, Nm, min_leaves=2):
         yield {'kind': 'pipe', 'L': L, 'shape': shape,
                'scheme': 'BD'[(L + n) % 2], 'seed': seed, 'tier': tier}
+    # ---- successive runs in one interpreter, inputs rewritten in place
+    for L, n, shape in domains.shapes_up_to(2, 3, min_leaves=2):
+        yield {'kind': 'rewrite', 'L': L, 'shape': shape, 'scheme': 'B',
+               'seed': seed}
     # ---- gene order permutations (pipeline)
     for L, n, shape in [(2, 3, domains.tree_shapes(2, 3)[1]),
                         (1, 3, domains.tree_shapes(1, 3)[0])]:
@@ -452,7 +456,21 @@ def evaluate_perm(case, scratch):
                        'reference_order': b.ref_genes}}
 
 
+def evaluate_rewrite(case, scratch):
+    spec = {'L': case['L'], 'shape': case['shape'], 'scheme': case['scheme'],
+            'n_cells': 5, 'seed': case['seed'], 'marker_mode': 'full'}
+    n, found = mapcheck.run_rewrite_history(spec, scratch, ('C02',))
+    v = [{'key': f['key'], 'msg': f"{f['key']}: {f['msg']}\n{label}"}
+         for label, f in found if f['prop'] == 'C02']
+    return {'violations': v[:20], 'evaluations': n,
+            'keys': [f'rewrite|{case["shape"]}|{i}' for i in range(n)],
+            'outcomes': ['rewrite-history'],
+            'extra': {'rewrite_history_runs': n}}
+
+
 def evaluate(case, scratch):
+    if case['kind'] == 'rewrite':
+        return evaluate_rewrite(case, scratch)
     if case['kind'] == 'core':
         return evaluate_core(case, scratch)
     if case['kind'] == 'pipe':
